@@ -411,8 +411,10 @@ public:
 				r.write(p.body.data() + pos, (int)n);
 				pos += n; k++;
 			}
-			if (p.body.empty()) r.sendHeaders();
-			if (p.kind == 's' && p.endChunks) r.socket() << "0\r\n\r\n";
+			// nothing to write: 'w' sends the headers alone; 's' leaves everything to the server's closing put("") + write(),
+			// which writes the whole (empty, chunked) message and ends it
+			if (p.body.empty() && p.kind == 'w') r.sendHeaders();
+			if (p.kind == 's' && p.endChunks && !p.body.empty()) r.socket() << "0\r\n\r\n";
 			break;
 		}
 		}
